@@ -242,6 +242,42 @@ class EventUnit(corr.Unit):
                         bad.append("signal %s: %s parsed as %r" % (raw, k, got))
                 if e.grid_connector_id != raw["grid_connector_id"] or e.start_time != U_.datetime_from_isoformat(raw["start_time"]):
                     bad.append("signal %s parsed with connector %s start %s" % (raw, e.grid_connector_id, e.start_time))
+        # energy price series from a CSV file: one cost event per row (equal consecutive prices included: a row supersedes whatever
+        # other source set the price before), starting at row index x step, announced a day ahead but not before the series start
+        import csv as csv_
+        import hashlib
+        import os
+        import pathlib
+        import random as random_
+        import tempfile
+        rr = random_.Random(int(hashlib.sha256(repr(sorted(case["events"])).encode() + str(case["start"]).encode()).hexdigest()[:8], 16))
+        gcs_ = list(case["components"]["grid_connectors"])
+        if gcs_ and rr.random() < 0.5:
+            step_s = rr.choice([900, 3600, 1800, 7200])
+            prices = []
+            for _ in range(rr.choice([2, 5, 30])):
+                prices.append(prices[-1] if prices and rr.random() < 0.4 else round(rr.uniform(-0.05, 0.5), 4))
+            d_ = tempfile.mkdtemp(prefix="verif_c07p_")
+            try:
+                with open(os.path.join(d_, "p.csv"), "w", newline="") as f:
+                    w = csv_.writer(f)
+                    w.writerow(["date", "price"])
+                    for i_, p_ in enumerate(prices):
+                        w.writerow([i_, p_])
+                obj = {"csv_file": "p.csv", "start_time": case["start"], "step_duration_s": step_s, "grid_connector_id": gcs_[0], "column": "price"}
+                with warnings.catch_warnings():
+                    warnings.simplefilter("ignore")
+                    got = E_.get_energy_price_list_from_csv(obj, pathlib.Path(d_))
+                st0 = U_.datetime_from_isoformat(case["start"])
+                import datetime as dt_
+                want = [(st0 + dt_.timedelta(seconds=step_s * i_), max(st0, st0 + dt_.timedelta(seconds=step_s * i_) - dt_.timedelta(days=1)),
+                         {"type": "fixed", "value": float(p_)}) for i_, p_ in enumerate(prices)]
+                got_ = [(e.start_time, e.signal_time, e.cost) for e in got]
+                if got_ != want or any(e.grid_connector_id != gcs_[0] or e.max_power is not None for e in got):
+                    bad.append("price CSV %s (step %d s): %d events %s..., expected one per row %s..." % (prices, step_s, len(got_), got_[:3], want[:3]))
+            finally:
+                import shutil
+                shutil.rmtree(d_, ignore_errors=True)
         return bad[:3]
 
     # ---- Coq
